@@ -13,6 +13,7 @@ from symx.core import Ctx, SymBool, SymReal, objarr, tz
 from symx.rng import RNGModel
 from symx.shim import NPShim, ite, ns, patched, s_max, s_min
 
+from symx.core import LOG as _LOG
 R = z3.RealSort()
 PHI = z3.Function('Phi', R, R)
 PHIINV = z3.Function('PhiInv', R, R)
@@ -140,6 +141,22 @@ class MVNRecorder:
     def __init__(self):
         self.calls = []
 
+    def __call__(self, mean=None, cov=1, allow_singular=False, **k):
+        """frozen distribution: stats.multivariate_normal(mean, cov, ...)"""
+        rec = self
+
+        class Frozen:
+            def pdf(self, x):
+                return rec.pdf(x, cov=cov, allow_singular=allow_singular)
+
+            def cdf(self, x):
+                return rec.cdf(x, cov=cov)
+
+            def logpdf(self, x):
+                r = rec.pdf(x, cov=cov, allow_singular=allow_singular)
+                return _elem(lambda v: SymReal(_LOG(tz(v))), np.asarray(r, dtype=object))
+        return Frozen()
+
     def pdf(self, x, *a, **k):
         self.calls.append(('pdf', np.asarray(x, dtype=object).copy(), a, k))
         x = np.asarray(x, dtype=object)
@@ -252,7 +269,10 @@ class CorrStub:
                 elif i == j:
                     M[i, j] = SymReal(z3.RealVal(1))
                 else:
-                    r = SymReal(z3.Real(f'rho_{i}_{j}'))
+                    # a deterministic function of the two columns (so that equal data give equal correlations)
+                    args = [tz(x) for x in A[:, i]] + [tz(x) for x in A[:, j]]
+                    f = z3.Function(f'rho_{len(args)}', *([R] * (len(args) + 1)))
+                    r = SymReal(f(*args))
                     ctx.assume(r.t >= -1, r.t <= 1)
                     M[i, j] = M[j, i] = r
         live = [i for i in range(d) if not const[i]]
